@@ -121,6 +121,10 @@ class Check(PropCheck):
             # boundary values: a threshold exactly equal to an existing branch length (strictly-shorter test)
             # (exact dyadic trees only: for inexact decimals the model keeps the decimal value and the crate its f64 rounding)
             thr = rng.choice(lens) if (lens and job['mode'] == 'exact' and rng.random() < 0.6) else rng.choice([0.0, 0.3, 1.0, 2.5, 100.0])
+            if lens and job['mode'] == 'exact' and rng.random() < 0.5:
+                # one ulp above / below an existing length: "strictly shorter" must not be blurred by an absolute epsilon
+                import math
+                thr = rng.choice([math.nextafter(thr, math.inf), math.nextafter(thr, -math.inf) if thr > 0 else thr])
             ex = rng.random() < 0.5
             args = ['collapse', tf, repr(thr)] + (['-e'] if ex else [])
             info['thr'] = thr; info['ex'] = ex
